@@ -97,11 +97,11 @@ def legacyChar (c C : Int) (mods : Nat) : Option Seq :=
   else none
 
 /-- A finite view of a `Uni`: the runes a run-time table lists (`dom`), used to evaluate the
-    ∀-hypothesis "no lower-case rune upper-cases to `c`" on the rows the harness supplies (the harness
+    ∀-hypothesis "no lower-case rune with an upper case of its own upper-cases to `c`" on the rows the harness supplies (the harness
     lists every such rune of Go's tables; runes outside the table are not lower-case in the driver's
     `Uni`). -/
 def noLowerMapsTo (u : Uni) (dom : List Int) (c : Int) : Bool :=
-  dom.all fun r => !(u.isLower r && decide (u.toUpper r = c))
+  dom.all fun r => !(u.isLower r && decide (u.toUpper r ≠ r) && decide (u.toUpper r = c))
 
 /-- Hypotheses of `cross_protocol_char_plain` (textless forms need the last three). -/
 def hypPlain (u : Uni) (dom : List Int) (c : Int) (withText : Bool) : List (String × Bool) :=
@@ -113,7 +113,7 @@ def hypPlain (u : Uni) (dom : List Int) (c : Int) (withText : Bool) : List (Stri
 def hypShift (u : Uni) (c C : Int) (withText : Bool) : List (String × Bool) :=
   [("validRune", validRune c && validRune C), ("upperC", u.isUpper C), ("toLowerC", decide (u.toLower C = c)),
    ("notDEL", decide (c ≠ 127)), ("notFunctional", decide (lookup2 (c, 117) functional = none))] ++
-  (if withText then [] else [("isPrint", u.isPrint c), ("toUpperc", decide (u.toUpper c = C))])
+  (if withText then [] else [("isPrint", u.isPrint c), ("isPrintC", u.isPrint C)])
 
 /-- Hypotheses of `cross_protocol_char_alt`. -/
 def hypAlt (u : Uni) (c : Int) : List (String × Bool) :=
